@@ -18,7 +18,25 @@ HEADER = ("From Coq Require Import ZArith List. Import ListNotations. Open Scope
           "Definition unpack_step (s : Z * list core) : Z * list core :=\n"
           "  let z := fst s in (Z.shiftr z 24, (Z.land (Z.shiftr z 16) 255, Z.land (Z.shiftr z 8) 255, Z.land z 255) :: snd s).\n"
           "Definition unpack (n z : Z) : list core :=\n"
-          "  match n with Zpos p => snd (Pos.iter unpack_step (z, []) p) | _ => [] end.\n")
+          "  match n with Zpos p => snd (Pos.iter unpack_step (z, []) p) | _ => [] end.\n"
+          # exhaustive 4 x 4 enumeration (thorough tier): the same insertion sequence as the driver builds
+          "Definition enum_b (cls mask i : Z) : bool :=\n"
+          "  if cls =? 0 then false else if cls =? 1 then Z.testbit mask i else if cls =? 2 then negb (Z.testbit mask i) else true.\n"
+          "Definition enum_cores (bx by_ a b cls mask : Z) : list core :=\n"
+          "  flat_map (fun i => (if Z.testbit mask i then [(bx + i mod 4, by_ + i / 4, a)] else [])\n"
+          "                     ++ (if enum_b cls mask i then [(bx + i mod 4, by_ + i / 4, b)] else []))\n"
+          "           [0;1;2;3;4;5;6;7;8;9;10;11;12;13;14;15].\n"
+          "Fixpoint zlist_eqb (a b : list Z) : bool :=\n"
+          "  match a, b with [], [] => true | x :: a', y :: b' => (x =? y) && zlist_eqb a' b' | _, _ => false end.\n"
+          "Fixpoint enum_check (bx by_ a b cls mask : Z) (expected : list (list Z)) : bool :=\n"
+          "  match expected with\n"
+          "  | [] => true\n"
+          "  | e :: rest =>\n"
+          "      match compress (enum_cores bx by_ a b cls mask) with\n"
+          "      | Ok out => zlist_eqb (map (fun rc => fst rc * 262144 + snd rc) out) e\n"
+          "      | _ => false\n"
+          "      end && enum_check bx by_ a b cls (mask + 1) rest\n"
+          "  end.\n")
 
 
 # ------------------------------------------------------------------ independent oracle
@@ -214,7 +232,7 @@ def gen_shape(rng, t, kind, heavy):
     else:
         bx, by = rng.randrange(0, 256, side), rng.randrange(0, 256, side)
     chips = block(bx, by, side)
-    ncore_full = 1 if side >= 64 else rng.randint(1, 3)
+    ncore_full = 1 if side >= 64 else rng.randint(1, 2) if side >= 16 else rng.randint(1, 3)
     full = rand_cores(rng, ncore_full, ncore_full)
     add(t, chips, full)
     tags = [kind]
@@ -242,7 +260,7 @@ def gen_shape(rng, t, kind, heavy):
 
 
 QUICK_KINDS = (["sparse"] * 20 + ["corners"] * 5 + ["neighbours"] * 12 + ["full4"] * 25 + ["straddle4"] * 8
-               + ["full16"] * 10 + ["straddle16"] * 4)
+               + ["full16"] * 7 + ["straddle16"] * 3)
 
 
 def gen_case(rng, idx, tier):
@@ -269,6 +287,13 @@ def gen_case(rng, idx, tier):
             ps = ps + [rng.choice(ps) for _ in range(rng.choice([0, 0, 1, 2]))]     # duplicates
             rng.shuffle(ps)
         targets.append([c[0], c[1], ps])
+    if rng.random() < 0.06:
+        # chips on which nothing is requested (empty core set): no pair may select them
+        for _ in range(rng.randint(1, 2)):
+            c = (rng.randrange(256), rng.randrange(256))
+            if c not in t:
+                targets.insert(rng.randint(0, len(targets)), [c[0], c[1], []])
+                tags.append("empty-core-set")
     return dict(mode="compress", targets=targets, container=container, tags=sorted(set(tags)), order=order,
                 valid=True)
 
@@ -341,6 +366,78 @@ def pairs(l):
     return [tuple(p) for p in l]
 
 
+def eval_retry(chk, header, exprs, **kw):
+    """chk.coq_eval; a shard killed from outside (out-of-memory killer on the shared machine) is not a
+    statement about the model: evaluate once more before giving up."""
+    try:
+        return chk.coq_eval(header, exprs, **kw)
+    except RuntimeError as e:
+        if "rc=137" not in str(e) and "Killed" not in str(e):
+            raise
+        time.sleep(20)
+        return chk.coq_eval(header, exprs, **kw)
+
+
+def run_enum(chk):
+    """Thorough tier: EVERY subset of one 4 x 4 block for core a, with core b absent / on the same chips / on
+    the complementary chips / on the whole block (4 x 65536 target sets): oracle on each output of the
+    implementation, and the model evaluated in Coq on the same 262144 insertion sequences."""
+    bx, by, a, b, step = 84, 168, 2, 11, 1024
+    jobs = [dict(mode="enum4", bx=bx, by=by, a=a, b=b, cls=cls, lo=lo, hi=lo + step)
+            for cls in range(4) for lo in range(0, 65536, step)]
+    chunks = [jobs[i::12] for i in range(12)]
+    res = chk.impl_parallel("impl_c12.py", chunks, timeout=3000)
+    outs = {}
+    for k, part in enumerate(res):
+        for j, o in zip(chunks[k], part):
+            outs[(j["cls"], j["lo"])] = o
+    exprs, nfail = [], 0
+    for j in jobs:
+        o = outs[(j["cls"], j["lo"])]
+        if o[0] != "ok":
+            chk.fail_input("enum4:" + o[0], "exhaustive 4x4 enumeration: driver returned %r" % (o[:2],), dict(case=j))
+            continue
+        good = True
+        for mask, out in zip(range(j["lo"], j["hi"]), o[1]):
+            targets = {}
+            for i in range(16):
+                ps = set()
+                if mask >> i & 1:
+                    ps.add(a)
+                if [False, bool(mask >> i & 1), not (mask >> i & 1), True][j["cls"]]:
+                    ps.add(b)
+                if ps:
+                    targets[(bx + i % 4, by + i // 4)] = ps
+            chk.note_case(["enum4", j["cls"], mask], nontrivial=len(targets) >= 2)
+            res_o = ["other", out] if isinstance(out, str) else ["ok", None, out]
+            why = oracle_compress(targets, res_o)
+            if why:
+                good = False
+                if nfail < 5:
+                    nfail += 1
+                    chk.fail_input(why[0], why[1], dict(case=dict(mode="compress", container="list", valid=True, order="sorted",
+                                                                  tags=["enum4"],
+                                                                  targets=[[x, y, sorted(ps)] for (x, y), ps in targets.items()]),
+                                                        observed=res_o))
+        chk.count("exhaustive 4x4 block, pattern class %d (target sets)" % j["cls"], j["hi"] - j["lo"])
+        if good:
+            exprs.append("enum_check %d %d %d %d %d %d %s" % (
+                bx, by, a, b, j["cls"], j["lo"],
+                vlist(vlist(str(r * 262144 + m) for r, m in out) for out in o[1])))
+    if chk.model_ok and exprs:
+        try:
+            vals = eval_retry(chk, HEADER, exprs, shard=6, timeout=3000, name="enum")
+            chk.traces_validated += step * len(exprs)
+            chk.oblige("correspondence:exhaustive 4x4 block x 4 patterns of a second core (%d target sets, exact "
+                       "list equality inside Coq)" % (step * len(exprs)), all(v is True for v in vals),
+                       "chunks that differ: %r" % [e[:40] for e, v in zip(exprs, vals) if v is not True][:5])
+        except RuntimeError as e:
+            chk.oblige("correspondence:exhaustive-4x4-evaluates", False, str(e))
+    chk.coverage["exhaustive_subdomain"] = ("every subset of the 4x4 block at (%d, %d) for core %d, with core %d absent / on "
+                                            "the same chips / on the complementary chips / on all 16 chips: 4 x 65536 "
+                                            "target sets" % (bx, by, a, b))
+
+
 # ------------------------------------------------------------------ the check
 def run(chk, args):
     chk.trusted += ["CPython dict/set iteration order is observed by the driver and handed to the model as the "
@@ -363,7 +460,7 @@ def run(chk, args):
         cases = [expand(f["replay"]["case"]) for f in items if "case" in f.get("replay", {})]
         cases = [c for c in cases if c.get("mode") != "compress" or isinstance(c.get("targets"), list)]
     else:
-        n = 1400 if not thorough else 40000
+        n = 1400 if not thorough else 12000
         cases = []
         for i in range(n):
             if i % 16 == 15:
@@ -503,7 +600,7 @@ def run(chk, args):
                     exprs.append("run_tree %d %s" % (3 - c["level"], coq_cores(c["adds"], in_space(c["adds"]))))
                 idx.append(i)
             # shards of bounded text size
-            vals = chk.coq_eval(HEADER, exprs, shard=60 if not thorough else 200, timeout=2400)
+            vals = eval_retry(chk, HEADER, exprs, shard=60 if not thorough else 150, timeout=2400)
             bad = 0
             for i, v in zip(idx, vals):
                 c, o = cases[i], outs[i]
@@ -544,6 +641,10 @@ def run(chk, args):
         except RuntimeError as e:
             chk.oblige("correspondence:model-evaluates", False, str(e))
     timing["model-in-coq"] = round(time.time() - t3, 1)
+    if thorough and not args.replay:
+        t4 = time.time()
+        run_enum(chk)
+        timing["exhaustive-4x4"] = round(time.time() - t4, 1)
     chk.coverage["timing_s"] = timing
     chk.coverage["rule"] = (
         "compress cases: unions of 1-3 shapes (sparse chips in a 4/16/64/256 area; corner chips; neighbouring chips "
@@ -553,4 +654,7 @@ def run(chk, args):
         "duplicates; every 16th case has a core outside the space (ValueError expected); every 8th case drives "
         "RegionCoreTree(level=l) directly (add_core return values + unsorted traversal). Non-trivial = returns pairs, "
         ">= 2 chips and (some pair below level 3 or with >= 2 sub-block bits, or >= 2 pairs); distinct by hash of the "
-        "target list. Every output is expanded by the oracle to the multiset of cores it selects.")
+        "target list. Every output is expanded by the oracle to the multiset of cores it selects."
+        + (" Thorough tier adds: the whole machine but one chip for a second core; get_region_for_chip on all 256 x 256 "
+           "chips x {default, 0, 1, 2, 3}; every subset of one 4x4 block for one core x 4 patterns of a second core "
+           "(262144 target sets, oracle on each, model compared inside Coq)." if thorough else ""))
